@@ -309,9 +309,16 @@ pub fn window_set(w: usize) -> Vec<Vec<f64>> {
         // the static window stored with zero padding (width 3, resp. 2) - it still only looks at its own frame
         9 => vec![vec![0.0, 1.0, 0.0], vec![-0.5, 0.0, 0.5]],
         10 => vec![vec![0.0, 1.0, 0.0]],
-        _ => vec![vec![0.0, 1.0], vec![-0.5, 0.0, 0.5], vec![1.0, -2.0, 1.0]],
+        11 => vec![vec![0.0, 1.0], vec![-0.5, 0.0, 0.5], vec![1.0, -2.0, 1.0]],
+        // the static window need not have the coefficient 1: scaled, alone and with dynamic windows, negative, scaled and padded
+        12 => vec![vec![2.0]],
+        13 => vec![vec![0.5], vec![-0.5, 0.0, 0.5]],
+        14 => vec![vec![-1.0], vec![-1.0, 1.0], vec![1.0, -2.0, 1.0]],
+        _ => vec![vec![0.0, 2.0, 0.0], vec![-0.5, 0.0, 0.5]],
     }
 }
+/// number of window sets `window_set` knows
+pub const WINDOW_SETS: usize = 16;
 
 pub fn default_questions() -> Vec<(String, Vec<String>)> {
     vec![
